@@ -54,7 +54,7 @@ func (e *Engine) sharedChan(st *State, ch PtrV) bool {
 // push appends v under guard g (the caller established room).
 func (e *Engine) chanPush(cc *ChanContent, g smt.Term, v Value) *ChanContent {
 	c := e.C
-	nc := &ChanContent{Cap: cc.Cap, Closed: cc.Closed, Count: c.Ite(g, c.Add(cc.Count, c.BV(1, 32)), cc.Count)}
+	nc := &ChanContent{Cap: cc.Cap, Closed: cc.Closed, Count: c.Ite(g, c.Add(cc.Count, c.BV(1, 32)), cc.Count), Refill: cc.Refill}
 	for i := range cc.Slots {
 		at := c.And(g, c.Eq(cc.Count, c.BV(uint64(i), 32)))
 		nc.Slots = append(nc.Slots, e.Merge(at, v, cc.Slots[i]))
@@ -71,7 +71,14 @@ func (e *Engine) chanPop(cc *ChanContent, g smt.Term, et types.Type) (*ChanConte
 	} else {
 		v = e.zero(et)
 	}
-	nc := &ChanContent{Cap: cc.Cap, Closed: cc.Closed, Count: c.Ite(g, c.Sub(cc.Count, c.BV(1, 32)), cc.Count)}
+	nc := &ChanContent{Cap: cc.Cap, Closed: cc.Closed, Count: c.Ite(g, c.Sub(cc.Count, c.BV(1, 32)), cc.Count), Refill: cc.Refill}
+	if cc.Refill > 0 && !g.IsFalse() {
+		// ticker: the next tick is already there
+		nc.Count = cc.Count
+		nc.Refill = cc.Refill - 1
+		nc.Slots = cc.Slots
+		return nc, v
+	}
 	for i := range cc.Slots {
 		var next Value
 		if i+1 < len(cc.Slots) {
@@ -158,7 +165,7 @@ func (e *Engine) chanClose(st *State, ch PtrV, where string) {
 		}
 		cc := al.cc
 		e.fail(st, c.And(al.g, cc.Closed), "nopanic:close-of-closed-channel", where)
-		st.Heap[al.o] = &ChanContent{Cap: cc.Cap, Closed: c.Or(cc.Closed, al.g), Count: cc.Count, Slots: cc.Slots}
+		st.Heap[al.o] = &ChanContent{Cap: cc.Cap, Closed: c.Or(cc.Closed, al.g), Count: cc.Count, Slots: cc.Slots, Refill: cc.Refill}
 	}
 }
 
